@@ -6,6 +6,10 @@ Named pieces of one loop iteration (`lzA`, `lzW`, `arW`), the unfolding lemmas `
 and the size bookkeeping of the loops: after the loop the state has `k` entries of `alpha` (columns of `H`),
 `k - 1` entries of `beta` (subdiagonal entries) and `k` vectors, `1 ≤ k ≤ numiter`, with `k = numiter` unless the
 breakdown branch was taken.
+
+F11: `lanczosCore` / `arnoldiCore` are the uncapped iterations `lanczosCoreU` / `arnoldiCoreU` run with
+`min numiter vstart.length` iterations.  Every core lemma is proved for the uncapped iteration (suffix `U`) and
+instantiated at the capped count; `k ≤ numiter` stays true (`k ≤ min numiter n ≤ numiter`) and `k ≤ vstart.length` is new.
 -/
 set_option linter.unusedSectionVars false
 
@@ -97,9 +101,9 @@ theorem lanczosFinish_sized {j : Nat} {st : LState α ρ} (h : st.Sized j j (j +
   obtain ⟨ha, hb, hv⟩ := h
   simp [lanczosFinish, LState.Sized, ha, hb, hv]
 
-/-- unfolding of `lanczosCore` on its success path -/
-theorem lanczosCore_ok {vstart : List α} {numiter : Nat} {st : LState α ρ}
-    (h : lanczosCore Afun dnorm vstart numiter = .ok st) :
+/-- unfolding of `lanczosCoreU` on its success path -/
+theorem lanczosCoreU_ok {vstart : List α} {numiter : Nat} {st : LState α ρ}
+    (h : lanczosCoreU Afun dnorm vstart numiter = .ok st) :
     decide (0 < dnorm vstart) = true ∧ numiter ≠ 0 ∧
     st = (if (lanczosLoop Afun dnorm vstart.length (numiter - 1) 0
               { alpha := [], beta := [], V := [vdiv vstart.length vstart (RealLike.ofReal (dnorm vstart))] }).2
@@ -108,7 +112,7 @@ theorem lanczosCore_ok {vstart : List α} {numiter : Nat} {st : LState α ρ}
           else lanczosFinish Afun vstart.length (numiter - 1)
             (lanczosLoop Afun dnorm vstart.length (numiter - 1) 0
               { alpha := [], beta := [], V := [vdiv vstart.length vstart (RealLike.ofReal (dnorm vstart))] }).1) := by
-  unfold lanczosCore at h
+  unfold lanczosCoreU at h
   by_cases h0 : decide (0 < dnorm vstart) = true
   · by_cases hm : numiter = 0
     · simp [pyAssert, h0, hm, bind, Except.bind, throw, throwThe, MonadExceptOf.throw] at h
@@ -119,18 +123,18 @@ theorem lanczosCore_ok {vstart : List α} {numiter : Nat} {st : LState α ρ}
       · rename_i hb; rw [if_neg hb]; injection h with h; exact h.symm
   · simp [pyAssert, h0, bind, Except.bind] at h
 
-/-- `lanczosCore` succeeds exactly when the norm of the start vector is positive and `numiter ≥ 1` -/
-theorem lanczosCore_isOk {vstart : List α} {numiter : Nat} (h0 : 0 < dnorm vstart) (hm : 1 ≤ numiter) :
-    ∃ st, lanczosCore Afun dnorm vstart numiter = .ok st := by
+/-- `lanczosCoreU` succeeds exactly when the norm of the start vector is positive and `numiter ≥ 1` -/
+theorem lanczosCoreU_isOk {vstart : List α} {numiter : Nat} (h0 : 0 < dnorm vstart) (hm : 1 ≤ numiter) :
+    ∃ st, lanczosCoreU Afun dnorm vstart numiter = .ok st := by
   have hm' : numiter ≠ 0 := by omega
-  unfold lanczosCore
+  unfold lanczosCoreU
   simp only [pyAssert, decide_eq_true h0, if_true, hm', if_false, bind, Except.bind, pure, Except.pure]
   split <;> exact ⟨_, rfl⟩
 
-theorem lanczosCore_sized {vstart : List α} {numiter : Nat} {st : LState α ρ}
-    (h : lanczosCore Afun dnorm vstart numiter = .ok st) :
+theorem lanczosCoreU_sized {vstart : List α} {numiter : Nat} {st : LState α ρ}
+    (h : lanczosCoreU Afun dnorm vstart numiter = .ok st) :
     ∃ k, 1 ≤ k ∧ k ≤ numiter ∧ st.Sized k (k - 1) k := by
-  obtain ⟨_, hm, rfl⟩ := lanczosCore_ok Afun dnorm h
+  obtain ⟨_, hm, rfl⟩ := lanczosCoreU_ok Afun dnorm h
   have h0 : LState.Sized (α := α) (ρ := ρ)
       { alpha := [], beta := [], V := [vdiv vstart.length vstart (RealLike.ofReal (dnorm vstart))] } 0 0 (0 + 1) := by
     simp [LState.Sized]
@@ -146,6 +150,50 @@ theorem lanczosCore_sized {vstart : List α} {numiter : Nat} {st : LState α ρ}
     have e' : 0 + (numiter - 1) = numiter - 1 := by omega
     rw [e'] at this
     rwa [show numiter - 1 + 1 = numiter by omega] at this
+
+theorem lanczosCore_eq (vstart : List α) (numiter : Nat) :
+    lanczosCore Afun dnorm vstart numiter = lanczosCoreU Afun dnorm vstart (min numiter vstart.length) := rfl
+
+/-- the cap is idempotent -/
+theorem lanczosCore_capped (vstart : List α) (numiter : Nat) :
+    lanczosCore Afun dnorm vstart numiter = lanczosCore Afun dnorm vstart (min numiter vstart.length) := by
+  rw [lanczosCore_eq, lanczosCore_eq, Nat.min_assoc, Nat.min_self]
+
+/-- below the dimension the cap does nothing -/
+theorem lanczosCore_eq_of_le {vstart : List α} {numiter : Nat} (h : numiter ≤ vstart.length) :
+    lanczosCore Afun dnorm vstart numiter = lanczosCoreU Afun dnorm vstart numiter := by
+  rw [lanczosCore_eq, Nat.min_eq_left h]
+
+/-- unfolding of `lanczosCore` on its success path: the loop runs `min numiter vstart.length - 1` times (F11) -/
+theorem lanczosCore_ok {vstart : List α} {numiter : Nat} {st : LState α ρ}
+    (h : lanczosCore Afun dnorm vstart numiter = .ok st) :
+    decide (0 < dnorm vstart) = true ∧ min numiter vstart.length ≠ 0 ∧
+    st = (if (lanczosLoop Afun dnorm vstart.length (min numiter vstart.length - 1) 0
+              { alpha := [], beta := [], V := [vdiv vstart.length vstart (RealLike.ofReal (dnorm vstart))] }).2
+          then (lanczosLoop Afun dnorm vstart.length (min numiter vstart.length - 1) 0
+              { alpha := [], beta := [], V := [vdiv vstart.length vstart (RealLike.ofReal (dnorm vstart))] }).1
+          else lanczosFinish Afun vstart.length (min numiter vstart.length - 1)
+            (lanczosLoop Afun dnorm vstart.length (min numiter vstart.length - 1) 0
+              { alpha := [], beta := [], V := [vdiv vstart.length vstart (RealLike.ofReal (dnorm vstart))] }).1) :=
+  lanczosCoreU_ok Afun dnorm h
+
+/-- `lanczosCore` succeeds when the norm of the start vector is positive, `numiter ≥ 1` and the vector is not empty -/
+theorem lanczosCore_isOk {vstart : List α} {numiter : Nat} (h0 : 0 < dnorm vstart) (hm : 1 ≤ numiter)
+    (hn : 1 ≤ vstart.length) : ∃ st, lanczosCore Afun dnorm vstart numiter = .ok st :=
+  lanczosCoreU_isOk Afun dnorm h0 (by omega)
+
+/-- sizes of the capped run, with the bound by the dimension (F11) -/
+theorem lanczosCore_sized' {vstart : List α} {numiter : Nat} {st : LState α ρ}
+    (h : lanczosCore Afun dnorm vstart numiter = .ok st) :
+    ∃ k, 1 ≤ k ∧ k ≤ numiter ∧ k ≤ vstart.length ∧ st.Sized k (k - 1) k := by
+  obtain ⟨k, h1, h2, hs⟩ := lanczosCoreU_sized Afun dnorm h
+  exact ⟨k, h1, by omega, by omega, hs⟩
+
+theorem lanczosCore_sized {vstart : List α} {numiter : Nat} {st : LState α ρ}
+    (h : lanczosCore Afun dnorm vstart numiter = .ok st) :
+    ∃ k, 1 ≤ k ∧ k ≤ numiter ∧ st.Sized k (k - 1) k := by
+  obtain ⟨k, h1, h2, _, hs⟩ := lanczosCore_sized' Afun dnorm h
+  exact ⟨k, h1, h2, hs⟩
 
 /-- `lanczos` is `lanczosCore` followed by the packaging of the result -/
 theorem lanczos_ok {vstart : List α} {numiter : Nat} {alpha beta : List ρ} {V : Mat α}
@@ -169,25 +217,40 @@ theorem lanczos_sizes {vstart : List α} {numiter : Nat} {alpha beta : List ρ} 
   obtain ⟨k, h1, h2, ha, hb, hv⟩ := lanczosCore_sized Afun dnorm hc
   exact ⟨by omega, by omega, by omega, rfl, by simp [colsMat, hv, ha]⟩
 
-theorem lanczos_isOk {vstart : List α} {numiter : Nat} (h0 : 0 < dnorm vstart) (hm : 1 ≤ numiter) :
-    ∃ r, lanczos Afun dnorm vstart numiter = .ok r := by
-  obtain ⟨st, hst⟩ := lanczosCore_isOk Afun dnorm h0 hm
+/-- F11: never more vectors than the dimension -/
+theorem lanczos_le_length {vstart : List α} {numiter : Nat} {alpha beta : List ρ} {V : Mat α}
+    (h : lanczos Afun dnorm vstart numiter = .ok (alpha, beta, V)) :
+    V.n ≤ vstart.length ∧ alpha.length ≤ vstart.length := by
+  obtain ⟨st, hc, rfl, rfl, rfl⟩ := lanczos_ok Afun dnorm h
+  obtain ⟨k, _, _, h3, ha, _, hv⟩ := lanczosCore_sized' Afun dnorm hc
+  exact ⟨by simp [colsMat, hv, h3], by omega⟩
+
+/-- the cap is idempotent: `lanczos` at `numiter` is `lanczos` at `min numiter (len vstart)` -/
+theorem lanczos_capped' (vstart : List α) (numiter : Nat) :
+    lanczos Afun dnorm vstart numiter = lanczos Afun dnorm vstart (min numiter vstart.length) := by
+  unfold lanczos; rw [lanczosCore_capped]
+
+theorem lanczos_isOk {vstart : List α} {numiter : Nat} (h0 : 0 < dnorm vstart) (hm : 1 ≤ numiter)
+    (hn : 1 ≤ vstart.length) : ∃ r, lanczos Afun dnorm vstart numiter = .ok r := by
+  obtain ⟨st, hst⟩ := lanczosCore_isOk Afun dnorm h0 hm hn
   exact ⟨_, by unfold lanczos; rw [hst]; rfl⟩
 
+/-- the two ways to fail.  After F11 the `ValueError` of `np.zeros(numiter-1)` is raised when the *capped* count is `0`:
+`numiter = 0`, or an empty start vector whose (non-contract) norm is reported positive. -/
 theorem lanczos_error {vstart : List α} {numiter : Nat} {e : Err}
     (h : lanczos Afun dnorm vstart numiter = .error e) :
-    (e = .assertion ∧ ¬ 0 < dnorm vstart) ∨ (e = .value ∧ numiter = 0) := by
-  unfold lanczos lanczosCore at h
+    (e = .assertion ∧ ¬ 0 < dnorm vstart) ∨ (e = .value ∧ (numiter = 0 ∨ vstart.length = 0)) := by
   by_cases h0 : 0 < dnorm vstart
-  · by_cases hm : numiter = 0
+  · by_cases hm : min numiter vstart.length = 0
     · right
+      unfold lanczos lanczosCore lanczosCoreU at h
       simp [pyAssert, h0, hm, bind, Except.bind, throw, throwThe, MonadExceptOf.throw] at h
-      exact ⟨h.symm, hm⟩
+      exact ⟨h.symm, by omega⟩
     · exfalso
-      obtain ⟨r, hr⟩ := lanczos_isOk Afun dnorm h0 (Nat.pos_of_ne_zero hm)
-      unfold lanczos lanczosCore at hr
+      obtain ⟨r, hr⟩ := lanczos_isOk Afun dnorm (numiter := numiter) h0 (by omega) (by omega)
       rw [hr] at h; cases h
   · left
+    unfold lanczos lanczosCore lanczosCoreU at h
     simp [pyAssert, h0, bind, Except.bind] at h
     exact ⟨h.symm, h0⟩
 
@@ -228,10 +291,10 @@ theorem lanczosLoop_break_cause : ∀ (k j : Nat) (st : LState α ρ), st.Sized 
         exact lanczosLoop_break_cause k (j + 1) _ (hs.2 (by simpa using hb)) hc
 
 /-- if fewer than `numiter` vectors are returned, the last residual norm is below the threshold -/
-theorem lanczosCore_short {vstart : List α} {numiter : Nat} {st : LState α ρ}
-    (h : lanczosCore Afun dnorm vstart numiter = .ok st) (hk : st.alpha.length < numiter) :
+theorem lanczosCoreU_short {vstart : List α} {numiter : Nat} {st : LState α ρ}
+    (h : lanczosCoreU Afun dnorm vstart numiter = .ok st) (hk : st.alpha.length < numiter) :
     dnorm (lzRes Afun vstart.length st (st.alpha.length - 1)) < breakdownThr ρ vstart.length := by
-  obtain ⟨_, hm, rfl⟩ := lanczosCore_ok Afun dnorm h
+  obtain ⟨_, hm, rfl⟩ := lanczosCoreU_ok Afun dnorm h
   have h0 : LState.Sized (α := α) (ρ := ρ)
       { alpha := [], beta := [], V := [vdiv vstart.length vstart (RealLike.ofReal (dnorm vstart))] } 0 0 (0 + 1) := by
     simp [LState.Sized]
@@ -246,6 +309,12 @@ theorem lanczosCore_short {vstart : List α} {numiter : Nat} {st : LState α ρ}
     rw [show 0 + (numiter - 1) = numiter - 1 by omega] at this
     rw [this.1] at hk
     omega
+
+/-- if fewer than `min numiter (len vstart)` vectors are returned, the last residual norm is below the threshold -/
+theorem lanczosCore_short {vstart : List α} {numiter : Nat} {st : LState α ρ}
+    (h : lanczosCore Afun dnorm vstart numiter = .ok st) (hk : st.alpha.length < min numiter vstart.length) :
+    dnorm (lzRes Afun vstart.length st (st.alpha.length - 1)) < breakdownThr ρ vstart.length :=
+  lanczosCoreU_short Afun dnorm h hk
 
 /-! ### Arnoldi -/
 
@@ -305,8 +374,8 @@ theorem arnoldiFinish_sized {j : Nat} {st : AState α ρ} (h : st.Sized j j (j +
   obtain ⟨ha, hb, hv⟩ := h
   simp [arnoldiFinish, AState.Sized, ha, hb, hv]
 
-theorem arnoldiCore_ok {vstart : List α} {numiter : Nat} {st : AState α ρ}
-    (h : arnoldiCore Afun dnorm vstart numiter = .ok st) :
+theorem arnoldiCoreU_ok {vstart : List α} {numiter : Nat} {st : AState α ρ}
+    (h : arnoldiCoreU Afun dnorm vstart numiter = .ok st) :
     decide (0 < dnorm vstart) = true ∧ numiter ≠ 0 ∧
     st = (if (arnoldiLoop Afun dnorm vstart.length (numiter - 1) 0
               { cols := [], sub := [], V := [vdiv vstart.length vstart (RealLike.ofReal (dnorm vstart))] }).2
@@ -315,7 +384,7 @@ theorem arnoldiCore_ok {vstart : List α} {numiter : Nat} {st : AState α ρ}
           else arnoldiFinish Afun vstart.length (numiter - 1)
             (arnoldiLoop Afun dnorm vstart.length (numiter - 1) 0
               { cols := [], sub := [], V := [vdiv vstart.length vstart (RealLike.ofReal (dnorm vstart))] }).1) := by
-  unfold arnoldiCore at h
+  unfold arnoldiCoreU at h
   by_cases h0 : decide (0 < dnorm vstart) = true
   · by_cases hm : numiter = 0
     · simp [pyAssert, h0, hm, bind, Except.bind, throw, throwThe, MonadExceptOf.throw] at h
@@ -326,17 +395,17 @@ theorem arnoldiCore_ok {vstart : List α} {numiter : Nat} {st : AState α ρ}
       · rename_i hb; rw [if_neg hb]; injection h with h; exact h.symm
   · simp [pyAssert, h0, bind, Except.bind] at h
 
-theorem arnoldiCore_isOk {vstart : List α} {numiter : Nat} (h0 : 0 < dnorm vstart) (hm : 1 ≤ numiter) :
-    ∃ st, arnoldiCore Afun dnorm vstart numiter = .ok st := by
+theorem arnoldiCoreU_isOk {vstart : List α} {numiter : Nat} (h0 : 0 < dnorm vstart) (hm : 1 ≤ numiter) :
+    ∃ st, arnoldiCoreU Afun dnorm vstart numiter = .ok st := by
   have hm' : numiter ≠ 0 := by omega
-  unfold arnoldiCore
+  unfold arnoldiCoreU
   simp only [pyAssert, decide_eq_true h0, if_true, hm', if_false, bind, Except.bind, pure, Except.pure]
   split <;> exact ⟨_, rfl⟩
 
-theorem arnoldiCore_sized {vstart : List α} {numiter : Nat} {st : AState α ρ}
-    (h : arnoldiCore Afun dnorm vstart numiter = .ok st) :
+theorem arnoldiCoreU_sized {vstart : List α} {numiter : Nat} {st : AState α ρ}
+    (h : arnoldiCoreU Afun dnorm vstart numiter = .ok st) :
     ∃ k, 1 ≤ k ∧ k ≤ numiter ∧ st.Sized k (k - 1) k := by
-  obtain ⟨_, hm, rfl⟩ := arnoldiCore_ok Afun dnorm h
+  obtain ⟨_, hm, rfl⟩ := arnoldiCoreU_ok Afun dnorm h
   have h0 : AState.Sized (α := α) (ρ := ρ)
       { cols := [], sub := [], V := [vdiv vstart.length vstart (RealLike.ofReal (dnorm vstart))] } 0 0 (0 + 1) := by
     simp [AState.Sized]
@@ -375,10 +444,10 @@ theorem arnoldiLoop_break_cause : ∀ (k j : Nat) (st : AState α ρ), st.Sized 
       · rw [if_neg hb] at hc ⊢
         exact arnoldiLoop_break_cause k (j + 1) _ (hs.2 (by simpa using hb)) hc
 
-theorem arnoldiCore_short {vstart : List α} {numiter : Nat} {st : AState α ρ}
-    (h : arnoldiCore Afun dnorm vstart numiter = .ok st) (hk : st.cols.length < numiter) :
+theorem arnoldiCoreU_short {vstart : List α} {numiter : Nat} {st : AState α ρ}
+    (h : arnoldiCoreU Afun dnorm vstart numiter = .ok st) (hk : st.cols.length < numiter) :
     dnorm (arW Afun vstart.length (st.cols.length - 1) st).1 < breakdownThr ρ vstart.length := by
-  obtain ⟨_, hm, rfl⟩ := arnoldiCore_ok Afun dnorm h
+  obtain ⟨_, hm, rfl⟩ := arnoldiCoreU_ok Afun dnorm h
   have h0 : AState.Sized (α := α) (ρ := ρ)
       { cols := [], sub := [], V := [vdiv vstart.length vstart (RealLike.ofReal (dnorm vstart))] } 0 0 (0 + 1) := by
     simp [AState.Sized]
@@ -394,6 +463,51 @@ theorem arnoldiCore_short {vstart : List α} {numiter : Nat} {st : AState α ρ}
     rw [this.1] at hk
     omega
 
+theorem arnoldiCore_eq (vstart : List α) (numiter : Nat) :
+    arnoldiCore Afun dnorm vstart numiter = arnoldiCoreU Afun dnorm vstart (min numiter vstart.length) := rfl
+
+/-- the cap is idempotent -/
+theorem arnoldiCore_capped (vstart : List α) (numiter : Nat) :
+    arnoldiCore Afun dnorm vstart numiter = arnoldiCore Afun dnorm vstart (min numiter vstart.length) := by
+  rw [arnoldiCore_eq, arnoldiCore_eq, Nat.min_assoc, Nat.min_self]
+
+theorem arnoldiCore_eq_of_le {vstart : List α} {numiter : Nat} (h : numiter ≤ vstart.length) :
+    arnoldiCore Afun dnorm vstart numiter = arnoldiCoreU Afun dnorm vstart numiter := by
+  rw [arnoldiCore_eq, Nat.min_eq_left h]
+
+theorem arnoldiCore_ok {vstart : List α} {numiter : Nat} {st : AState α ρ}
+    (h : arnoldiCore Afun dnorm vstart numiter = .ok st) :
+    decide (0 < dnorm vstart) = true ∧ min numiter vstart.length ≠ 0 ∧
+    st = (if (arnoldiLoop Afun dnorm vstart.length (min numiter vstart.length - 1) 0
+              { cols := [], sub := [], V := [vdiv vstart.length vstart (RealLike.ofReal (dnorm vstart))] }).2
+          then (arnoldiLoop Afun dnorm vstart.length (min numiter vstart.length - 1) 0
+              { cols := [], sub := [], V := [vdiv vstart.length vstart (RealLike.ofReal (dnorm vstart))] }).1
+          else arnoldiFinish Afun vstart.length (min numiter vstart.length - 1)
+            (arnoldiLoop Afun dnorm vstart.length (min numiter vstart.length - 1) 0
+              { cols := [], sub := [], V := [vdiv vstart.length vstart (RealLike.ofReal (dnorm vstart))] }).1) :=
+  arnoldiCoreU_ok Afun dnorm h
+
+theorem arnoldiCore_isOk {vstart : List α} {numiter : Nat} (h0 : 0 < dnorm vstart) (hm : 1 ≤ numiter)
+    (hn : 1 ≤ vstart.length) : ∃ st, arnoldiCore Afun dnorm vstart numiter = .ok st :=
+  arnoldiCoreU_isOk Afun dnorm h0 (by omega)
+
+theorem arnoldiCore_sized' {vstart : List α} {numiter : Nat} {st : AState α ρ}
+    (h : arnoldiCore Afun dnorm vstart numiter = .ok st) :
+    ∃ k, 1 ≤ k ∧ k ≤ numiter ∧ k ≤ vstart.length ∧ st.Sized k (k - 1) k := by
+  obtain ⟨k, h1, h2, hs⟩ := arnoldiCoreU_sized Afun dnorm h
+  exact ⟨k, h1, by omega, by omega, hs⟩
+
+theorem arnoldiCore_sized {vstart : List α} {numiter : Nat} {st : AState α ρ}
+    (h : arnoldiCore Afun dnorm vstart numiter = .ok st) :
+    ∃ k, 1 ≤ k ∧ k ≤ numiter ∧ st.Sized k (k - 1) k := by
+  obtain ⟨k, h1, h2, _, hs⟩ := arnoldiCore_sized' Afun dnorm h
+  exact ⟨k, h1, h2, hs⟩
+
+theorem arnoldiCore_short {vstart : List α} {numiter : Nat} {st : AState α ρ}
+    (h : arnoldiCore Afun dnorm vstart numiter = .ok st) (hk : st.cols.length < min numiter vstart.length) :
+    dnorm (arW Afun vstart.length (st.cols.length - 1) st).1 < breakdownThr ρ vstart.length :=
+  arnoldiCoreU_short Afun dnorm h hk
+
 /-- `arnoldi` is `arnoldiCore` followed by the packaging of the result -/
 theorem arnoldi_ok {vstart : List α} {numiter : Nat} {H V : Mat α}
     (h : arnoldi Afun dnorm vstart numiter = .ok (H, V)) :
@@ -407,25 +521,37 @@ theorem arnoldi_ok {vstart : List α} {numiter : Nat} {H V : Mat α}
     simp only [bind, Except.bind, pure, Except.pure, Except.ok.injEq, Prod.mk.injEq] at h
     exact ⟨st, rfl, h.1.symm, h.2.symm⟩
 
-theorem arnoldi_isOk {vstart : List α} {numiter : Nat} (h0 : 0 < dnorm vstart) (hm : 1 ≤ numiter) :
-    ∃ r, arnoldi Afun dnorm vstart numiter = .ok r := by
-  obtain ⟨st, hst⟩ := arnoldiCore_isOk Afun dnorm h0 hm
+/-- F11: never more vectors than the dimension -/
+theorem arnoldi_le_length {vstart : List α} {numiter : Nat} {H V : Mat α}
+    (h : arnoldi Afun dnorm vstart numiter = .ok (H, V)) : V.n ≤ vstart.length ∧ H.m ≤ vstart.length := by
+  obtain ⟨st, hc, rfl, rfl⟩ := arnoldi_ok Afun dnorm h
+  obtain ⟨k, _, _, h3, ha, _, hv⟩ := arnoldiCore_sized' Afun dnorm hc
+  exact ⟨by simp [colsMat, hv, h3], by simp [hessMat, ha, h3]⟩
+
+theorem arnoldi_capped' (vstart : List α) (numiter : Nat) :
+    arnoldi Afun dnorm vstart numiter = arnoldi Afun dnorm vstart (min numiter vstart.length) := by
+  unfold arnoldi; rw [arnoldiCore_capped]
+
+theorem arnoldi_isOk {vstart : List α} {numiter : Nat} (h0 : 0 < dnorm vstart) (hm : 1 ≤ numiter)
+    (hn : 1 ≤ vstart.length) : ∃ r, arnoldi Afun dnorm vstart numiter = .ok r := by
+  obtain ⟨st, hst⟩ := arnoldiCore_isOk Afun dnorm h0 hm hn
   exact ⟨_, by unfold arnoldi; rw [hst]; rfl⟩
 
+/-- after F11 the `IndexError` of `V[0] = vstart` is raised when the *capped* count is `0` -/
 theorem arnoldi_error {vstart : List α} {numiter : Nat} {e : Err}
     (h : arnoldi Afun dnorm vstart numiter = .error e) :
-    (e = .assertion ∧ ¬ 0 < dnorm vstart) ∨ (e = .index ∧ numiter = 0) := by
-  unfold arnoldi arnoldiCore at h
+    (e = .assertion ∧ ¬ 0 < dnorm vstart) ∨ (e = .index ∧ (numiter = 0 ∨ vstart.length = 0)) := by
   by_cases h0 : 0 < dnorm vstart
-  · by_cases hm : numiter = 0
+  · by_cases hm : min numiter vstart.length = 0
     · right
+      unfold arnoldi arnoldiCore arnoldiCoreU at h
       simp [pyAssert, h0, hm, bind, Except.bind, throw, throwThe, MonadExceptOf.throw] at h
-      exact ⟨h.symm, hm⟩
+      exact ⟨h.symm, by omega⟩
     · exfalso
-      obtain ⟨r, hr⟩ := arnoldi_isOk Afun dnorm h0 (Nat.pos_of_ne_zero hm)
-      unfold arnoldi arnoldiCore at hr
+      obtain ⟨r, hr⟩ := arnoldi_isOk Afun dnorm (numiter := numiter) h0 (by omega) (by omega)
       rw [hr] at h; cases h
   · left
+    unfold arnoldi arnoldiCore arnoldiCoreU at h
     simp [pyAssert, h0, bind, Except.bind] at h
     exact ⟨h.symm, h0⟩
 
